@@ -10,7 +10,7 @@ EXPLAIN = "explain"
 RULE = ("2-4 real asyncio tasks, each a program of 1-3 items: a direct cache command, or a transactional block (mode fast / locked / serializable; "
         "form: context manager, ONE shared decorated function called by all tasks, context manager nested in either, decorated function nested in "
         "either, one context object entered again inside itself, a context manager with an explicit commit() / rollback() in the middle of its body; "
-        "1-4 commands get / set / set-if / incr / delete / expire / sleep over keys k0..k2; ends normally or raises), transaction timeout 0.35-0.75 s; every "
+        "1-4 commands get / set / set-if / incr / delete / expire / sleep over keys k0..k2; ends normally, raises an exception or is left by CancelledError), transaction timeout 0.35-0.75 s; every "
         "get / set / incr / delete / delete_many / set_many / set_lock / unlock reaching the Memory instance is gated, the unlocks issued through "
         "gather are separate tasks; the schedule (which parked command runs next, when the clock advances to the next timer - the 0.1 s of the lock "
         "wait loop, a sleep in a body) is a seeded list of choices; thorough tier: EVERY schedule of selected 2-task programs per mode. Observed: each "
@@ -64,7 +64,7 @@ def _rand_case(rng):
             else:
                 prog.append({"kind": "txn", "mode": mode if rng.random() < 0.8 else rng.choice(["fast", "locked", "serializable"]),
                              "form": rng.choice(["ctx", "decor", "decor", "ctx_in_ctx", "decor_in_decor", "ctx_in_decor", "decor_in_ctx", "ctx_reentered", "ctx_midcommit", "ctx_midrollback"]),
-                             "cmds": [_rand_cmd(rng, keys) for _ in range(rng.randint(1, 4))], "raise": rng.random() < 0.2})
+                             "cmds": [_rand_cmd(rng, keys) for _ in range(rng.randint(1, 4))], "raise": rng.choice([False, False, False, False, False, False, False, True, True, "cancel"])})
         tasks.append(prog)
     return {"timeout": rng.choice([0.35, 0.55, 0.75]), "init": {str(k): rng.randint(0, 9) for k in keys if rng.random() < 0.6},
             "tasks": tasks, "schedule": [rng.randrange(12) for _ in range(rng.choice([0, 10, 40, 40]))]}
@@ -225,6 +225,8 @@ def _run(case):
             async def body(cmds, fail, res):
                 for c in cmds:
                     res.append(await do(c))
+                if fail == "cancel":
+                    raise asyncio.CancelledError(res)      # the block is left by a BaseException that is not an Exception
                 if fail:
                     raise Boom(res)
                 return res
@@ -298,8 +300,8 @@ def _run(case):
                     try:
                         r = await block(item)
                         log.append(["end", tick(), i, "ok", list(r)])
-                    except Boom as e:
-                        log.append(["end", tick(), i, "raised", list(e.args[0])])
+                    except (Boom, asyncio.CancelledError) as e:
+                        log.append(["end", tick(), i, "raised", list(e.args[0]) if e.args else []])
                     except LockedError:
                         log.append(["end", tick(), i, "locked", []])
                     except Exception as e:  # noqa
